@@ -3,11 +3,37 @@ import drivers.c06  # noqa: F401   (registers the drivers)
 
 PROP = "C06"
 LEVEL = "exploration"
-LEVEL_TEXT = "wip"
-LEVEL_NOTE = "wip"
+LEVEL_TEXT = ("Bounded run-time contracts only (no deductive part yet): every gate entry point (TensorNetwork.gate_inds / "
+              "gate_sandwich_inds / gate_inds_with_tn, Tensor.gate, the arbitrary-geometry / 1D / 2D .gate methods with every "
+              "contract mode, gate_simple_, the MPS entry points gate_split / gate_with_auto_swap / gate_nonlocal / "
+              "gate_with_submpo / gate_with_mpo / swaps, the operator spellings gate_upper / gate_lower / gate_sandwich and "
+              "MatrixProductOperator.gate_sandwich_with_auto_swap) is executed on small networks and the dense form of the "
+              "result compared with the operator embedded by numpy.tensordot applied to the dense form before. Holds on the "
+              "stated domain only; 2 genuine defects of the unchanged tree are listed as known findings.")
+LEVEL_NOTE = ("Trusted: the pairwise numpy.einsum contraction of the raw arrays (drivers/c06.py::dense_of) and numpy.tensordot as "
+              "reference; tolerance 1e-9 relative (1e-7 for MPO-based routes and simple update).")
 TECHNIQUE = "run-time contracts on the real functions vs independent numpy references over a stated bounded domain (bounded stand-in)"
 E1 = []
 PROVIDERS = []
-TRUSTED = ["numpy einsum / tensordot reference computations"]
-ASSUMPTIONS = []
-EXPLANATION = "wip"
+TRUSTED = [
+    "numpy.einsum / numpy.tensordot on the raw tensor arrays as the dense semantics of a network (times 10**exponent)",
+    "the network constructors (MatrixProductState / MatrixProductOperator from arrays, PEPS.rand, view_as) only attach labels",
+]
+ASSUMPTIONS = [
+    "networks with at most 6 sites, physical dimensions 1..3, bond dimensions 1..3; real and complex double precision",
+    "all splitting modes are run with cutoff=0 (no truncation); truncating behaviour is the subject of C05 / C09",
+    "a contract mode may be rejected where the documentation does not promise it for the geometry (split / reduce-split on "
+    "non-neighbouring sites or multi-bonds, gate-splitting modes on 3+ sites, MPS-only modes on periodic chains, dagger / "
+    "transpose through the MPS-only modes): rejections and incidental crashes there are counted, not reported; an accepted "
+    "call must be right",
+    "tag propagation is checked for the lazy modes against the documented rule (False / True / 'sites' / 'register'; default "
+    "'sites' for 1D / 2D, False for arbitrary geometry)",
+    "gate_simple_ is checked with renorm=False on the network with its gauges multiplied into the bonds; smudge 1e-12",
+    "hyper-indices, parametrised gates (PTensor), block-sparse / fermionic arrays, gate_fit_local_, 3D networks and "
+    "gate_simple with renormalisation are not covered",
+]
+EXPLANATION = (
+    "Five bounded drivers: vector-gate-modes (MPS open / periodic, PEPS, graphs x contract modes x 1-3 site gates x "
+    "transpose / dagger x propagate_tags x in-place), mps-entry-points, operator-gates (sandwich / upper / lower on MPO and "
+    "general operator networks, gate_sandwich_with_auto_swap incl. stored exponent), raw-labels (plain networks incl. labels "
+    "clashing with internal names, gate_inds_with_tn, Tensor.gate), gate-simple (bond gauges, nearest neighbour and long range).")
